@@ -225,9 +225,12 @@ def execute(sc, reference=False):
                 edited, removed = hand_delete(spec, op["mode"], op["species"])
                 out["removed"] = removed
                 res = _run_potable(mg.render_ini(edited), scratch, [])
+                out["plain"] = _run_potable(ini, tempfile.mkdtemp(prefix="c13p-"), [])
             else:
                 flag = "--include-species" if op["mode"] == "include" else "--exclude-species"
                 res = _run_potable(ini, scratch, [flag] + list(op["species"]), args_first=op.get("args_first"))
+                # a later plain invocation in the same process must be unaffected by the filter
+                out["plain"] = _run_potable(ini, tempfile.mkdtemp(prefix="c13p-"), [])
             out["ops"].append(res)
             return out
         try:
@@ -351,6 +354,10 @@ def judge(sc, ref, res):
             if (e.get("raised"), bool(e.get("cfg_error"))) != (g.get("raised"), bool(g.get("cfg_error"))):
                 v.append({"class": "C13/cli-failure-kind-differs/" + tag, "op": 0,
                           "detail": "filtered: %s; hand-deleted: %s" % (_outcome(g), _outcome(e))})
+        pe, pg = ref.get("plain"), res.get("plain")
+        if pe and pg and ((pe["exit"], pe["raised"], (pe["file"] or {}).get("sha")) != (pg["exit"], pg["raised"], (pg["file"] or {}).get("sha"))):
+            v.append({"class": "C13/later-invocation-affected-by-filter/mode=%s" % op["mode"], "op": 0,
+                      "detail": "a plain potable run after the filtered one in the same process: %s ; in a pristine process: %s" % (_outcome(pg), _outcome(pe))})
         return v
     filt = {}
     for i, (op, e, g) in enumerate(zip(sc["ops"], ref["ops"], res["ops"])):
